@@ -1,6 +1,8 @@
 import Driver.Util
 import NixModel.Pure.Upgrade
 import NixModel.Pure.UpgradeInside
+import NixModel.Pure.UpgradeRead
+import NixModel.Generated.UpgradeShape
 open Lean Nix.Upgrade
 
 namespace Driver.C18
@@ -13,6 +15,8 @@ namespace Driver.C18
  * `["stale", lib, file, k]` — two task lists collected up front; the first processed (interrupted before
    step `k` / completely for `null`), then the stale second one completely
  * `["collect", lib, file]`, `["openrw", lib, file]`, `["view", file]`, `["is_uuid", text]`
+ * `["readvals", file]` — `Property.values` of every dataset below /metadata as the header version makes nixio read it
+   (the bound of the switch is the one regenerated from nixio/property.py): the values, `"raises"` or `"records"`
 -/
 
 def optStr (j : Json) : Option String := match j with | .str s => some s | _ => none
@@ -219,6 +223,14 @@ def viewJ (f : File) : Json :=
       Json.mkObj [("array", .str a.path), ("name", .str d.name), ("ticks", .str v.ticks),
         ("unit", oStr v.unit), ("label", oStr v.label)]).toArray)]
 
+def readvalsJ (f : File) : Json :=
+  .arr (f.props.map fun e =>
+    Json.mkObj [("path", .arr (e.1.map Json.str).toArray),
+      ("out", match readValues Nix.Upgrade.Gen.valuesOldBelow f.version e.2 with
+        | .values vs => .arr (vs.map valJ).toArray
+        | .raises => .str "raises"
+        | .records => .str "records")]).toArray
+
 def handle (j : Json) : Json :=
   match jArr j |>.toList with
   | [Json.str "history", lib, file, ks] =>
@@ -240,6 +252,10 @@ def handle (j : Json) : Json :=
   | [Json.str "view", file] =>
     match parseFile file with
     | some f => ok (viewJ f)
+    | none => bad "C18: malformed file"
+  | [Json.str "readvals", file] =>
+    match parseFile file with
+    | some f => ok (readvalsJ f)
     | none => bad "C18: malformed file"
   | [Json.str "is_uuid", Json.str s] => ok (.bool (isUuid s))
   | _ => bad "C18: unknown op"
